@@ -218,6 +218,7 @@ func c02Case(c *fw.Case, t *pdus.Type, force, class int, g *gridCell) {
 		}
 	}
 	c.Sample(2, map[string]any{"type": t.Key(), "values": ctx(), "reference_image": hx(keep)})
+	echoCodec(c, t, v, keep)
 }
 
 // tlvTail canonicalises an optional-parameter tail (strict parse) into a set string.
